@@ -135,7 +135,43 @@ def case_mixed(which, rep):
                                           d2UdJdJ=lambda J, K: K * (1 - np.log(J)) / J ** 2)
         elif which == "NearlyIncompressible(tt.mooney_rivlin)":
             um = fem.NearlyIncompressible(fem.Hyperelastic(fem.mooney_rivlin, C10=0.4, C01=0.2), bulk=bulk)
-        MM.check_mixed_blocks(run, which, um, F, p, J, None)
+        elif which == "ThreeFieldVariation(NeoHooke)[parallel,(1,q,c)]":
+            # threaded contractions and the layout the dual fields really hand over: p, J with an explicit unit axis
+            um = fem.ThreeFieldVariation(fem.NeoHooke(mu=mu, bulk=bulk), parallel=True)
+            batch = (2, 3)
+            F = batch_F(rng, batch, lo=0.8, hi=1.3)
+            p, J = 0.3 * rng.standard_normal((1,) + batch), 1 + 0.1 * rng.standard_normal((1,) + batch)
+        elif which == "NearlyIncompressible(NeoHooke)[parallel,(1,q,c)]":
+            um = fem.NearlyIncompressible(fem.NeoHooke(mu=mu), bulk=bulk, parallel=True)
+            batch = (3, 2)
+            F = batch_F(rng, batch, lo=0.8, hi=1.3)
+            p, J = 0.3 * rng.standard_normal((1,) + batch), 1 + 0.1 * rng.standard_normal((1,) + batch)
+        sv = None
+        if which == "ThreeFieldVariation(OgdenRoxburgh)[statevars]":
+            base = fem.NeoHooke(mu=mu, bulk=bulk)
+            um = fem.ThreeFieldVariation(fem.OgdenRoxburgh(base, r=3.0, m=1.0, beta=0.1))
+            Fbar = F * (J / np.linalg.det(np.moveaxis(F, (0, 1), (-2, -1)))) ** (1 / 3)
+            sv = (3.0 * np.asarray(base.function([Fbar, None])[0], float) + 0.05).reshape(1, *batch)  # clearly on the unloading branch
+        elif which == "NearlyIncompressible(viscoelastic)[statevars]":
+            ve = fem.Hyperelastic(fem.finite_strain_viscoelastic, mu=mu, eta=float(rng.uniform(0.5, 2)), dtime=0.5, nstatevars=6)
+            um = fem.NearlyIncompressible(ve, bulk=bulk)
+            sv = np.zeros((6,) + batch)
+            sv[[0, 3, 5]] = 1.0
+            sv = np.asarray(ve.gradient([batch_F(rng, batch, lo=0.85, hi=1.25), sv])[-1], float)
+        MM.check_mixed_blocks(run, which, um, F, p, J, sv)
+        if which == "ThreeFieldVariation(NeoHooke)":
+            # hessian(out=previous result): the buffer SolidBody hands back on every iteration
+            H0 = [None if a is None else np.array(a) for a in um.hessian([F, p, J, None])]
+            F_b = batch_F(rng, batch, lo=0.8, hi=1.3)
+            buf = um.hessian([F_b, p, J, None])
+            try:
+                H1b = um.hessian([F, p, J, None], out=buf)
+            except TypeError:
+                run.skip("material.out", "mixed hessian takes no out= argument")
+            else:
+                err = max(maxabs(np.asarray(a) - b) for a, b in zip(H1b, H0) if b is not None)
+                run.compare("material.out", "model=%s method=hessian clause=out-buffer-reused" % which, err / max(maxabs(H0[0]), 1e-300), 1e-13,
+                            "mixed hessian(out=previous result) differs from the result without a buffer", unit="out:mixed:hessian")
     return fn
 
 
@@ -202,10 +238,116 @@ def case_small_strain(which, rep):
     return fn
 
 
+def case_extra(rep):
+    """Paths of the anchored files that the registry sweep does not reach: kinematic maps, threaded variants, non-square
+    and 2x2 arguments, the undeformed state, two non-trivial trailing axes, other compositions, partly yielding batches."""
+    def fn(run):
+        import felupe as fem
+        rng = rng_for(run.seed, "C03", "extra", rep)
+        batch = [(2, 3), (3, 2), (1, 4)][rep % 3]
+        F = batch_F(rng, batch, lo=0.8, hi=1.3)
+        mon = "material.derivatives"
+        # ---- kinematic maps J(F), cof-type area map (with and without a normal), line map; serial and threaded
+        for par in (False, True):
+            tag = "[parallel]" if par else ""
+            V = fem.constitution.VolumeChange(parallel=par)
+            MM.judge_fd(run, mon, "model=VolumeChange%s clause=gradient-is-derivative-of-function" % tag, "VolumeChange: gradient != dJ/dF",
+                        V.gradient([F])[0], lambda h: MM.fd_wrt_F(lambda G: V.function([G])[0], F, h), 1.0, "VolumeChange%s:gradient" % tag,
+                        config="VolumeChange%s gradient" % tag)
+            MM.judge_fd(run, mon, "model=VolumeChange%s clause=hessian-is-derivative-of-gradient" % tag, "VolumeChange: hessian != d2J/dFdF",
+                        V.hessian([F])[0], lambda h: MM.fd_wrt_F(lambda G: V.gradient([G])[0], F, h), 1.0, "VolumeChange%s:hessian" % tag,
+                        config="VolumeChange%s hessian" % tag)
+            A = fem.constitution.AreaChange(parallel=par)
+            N = rng.standard_normal((3,) + batch)
+            MM.judge_fd(run, mon, "model=AreaChange%s clause=gradient-is-derivative-of-function" % tag, "AreaChange: gradient != d(J F^-T)/dF",
+                        A.gradient([F])[0], lambda h: MM.fd_wrt_F(lambda G: A.function([G])[0], F, h), 1.0, "AreaChange%s:gradient" % tag,
+                        config="AreaChange%s" % tag)
+            MM.judge_fd(run, mon, "model=AreaChange[N]%s clause=gradient-is-derivative-of-function" % tag, "AreaChange(N): gradient != d(J F^-T N)/dF",
+                        A.gradient([F], N)[0], lambda h: MM.fd_wrt_F(lambda G: A.function([G], N)[0], F, h), 1.0, "AreaChange[N]%s:gradient" % tag,
+                        config="AreaChange[N]%s" % tag)
+            ref = np.einsum("...,ji...->ij...", np.linalg.det(np.moveaxis(F, (0, 1), (-2, -1))), np.moveaxis(np.linalg.inv(np.moveaxis(F, (0, 1), (-2, -1))), (-2, -1), (0, 1)))
+            run.compare(mon, "model=AreaChange%s clause=definition" % tag, maxabs(A.function([F])[0] - ref), 1e-12, "AreaChange.function != J F^-T",
+                        unit="AreaChange%s:definition" % tag)
+            run.compare(mon, "model=AreaChange[N]%s clause=definition" % tag, maxabs(A.function([F], N)[0] - np.einsum("ij...,j...->i...", ref, N)), 1e-12,
+                        "AreaChange.function(N) != J F^-T N", unit="AreaChange[N]%s:definition" % tag)
+            run.compare(mon, "model=VolumeChange%s clause=definition" % tag, maxabs(V.function([F])[0] - np.linalg.det(np.moveaxis(F, (0, 1), (-2, -1)))), 1e-12,
+                        "VolumeChange.function != det F", unit="VolumeChange%s:definition" % tag)
+        L = fem.constitution.LineChange()
+        MM.judge_fd(run, mon, "model=LineChange clause=gradient-is-derivative-of-function", "LineChange: gradient != dF/dF",
+                    np.broadcast_to(L.gradient([F])[0], (3, 3, 3, 3) + batch), lambda h: MM.fd_wrt_F(lambda G: L.function([G])[0], F, h), 1.0, "LineChange:gradient")
+        # ---- threaded variants of the hand-coded and tensortrax models
+        for name, um in (("NeoHooke(mu,bulk)[parallel]", fem.NeoHooke(mu=1.3, bulk=2.7, parallel=True)),
+                         ("NeoHooke(mu)[parallel]", fem.NeoHooke(mu=1.3, parallel=True)),
+                         ("NeoHookeCompressible[parallel]", fem.NeoHookeCompressible(mu=1.3, lmbda=2.1, parallel=True)),
+                         ("LinearElasticLargeStrain[parallel]", fem.LinearElasticLargeStrain(E=2.0, nu=0.3, parallel=True)),
+                         ("tt.yeoh[parallel]", fem.Hyperelastic(fem.yeoh, C10=0.5, C20=-0.02, C30=0.01, parallel=True))):
+            en = (lambda G, um=um: um.function([G, None])[0]) if hasattr(um, "function") else None
+            MM.check_derivatives(run, name, um, F, None, energy=en, config="%s %s" % (name, batch))
+        # ---- 2x2 deformation gradients (plain 2D fields) and the undeformed state
+        F2 = np.eye(2).reshape(2, 2, 1, 1) + 0.15 * rng.standard_normal((2, 2) + batch)
+        FI = np.broadcast_to(np.eye(3).reshape(3, 3, 1, 1), (3, 3) + batch).copy()
+        for name, mk in (("NeoHooke(mu,bulk)", lambda: fem.NeoHooke(mu=1.3, bulk=2.7)), ("NeoHookeCompressible(mu,lmbda)", lambda: fem.NeoHookeCompressible(mu=1.3, lmbda=2.1)),
+                         ("LinearElasticLargeStrain(E,nu)", lambda: fem.LinearElasticLargeStrain(E=2.0, nu=0.3)),
+                         ("OgdenRoxburgh(NeoHooke)", lambda: fem.OgdenRoxburgh(fem.NeoHooke(mu=1.0, bulk=3.0), r=3.0, m=1.0, beta=0.1))):
+            um = mk()
+            sv0 = np.zeros((1,) + batch) if name.startswith("Ogden") else None
+            if sv0 is None:
+                MM.check_derivatives(run, name + "[2x2]", um, F2, None, energy=lambda G, um=um: um.function([G, None])[0], config=name + " 2x2")
+            if name.startswith("Ogden"):
+                # at F = I the energy sits exactly on the switch W = Wmax = 0: one-sided by construction; use a stored maximum
+                sv0 = 0.05 * np.ones((1,) + batch)
+            MM.check_derivatives(run, name + "[F=I]", um, FI, sv0, config=name + " F=I")
+        # ---- Laplace with the non-square gradient of a scalar field
+        for shape in ((1, 3), (1, 2), (2, 2)):
+            G0 = 0.3 * rng.standard_normal(shape + batch)
+            lap = fem.Laplace(float(rng.uniform(0.5, 3)))
+            MM.check_derivatives(run, "Laplace[%dx%d]" % shape, lap, G0, None, energy=lambda G, lap=lap: lap.function([G, None])[0], config="Laplace %s" % (shape,))
+        # ---- other compositions: pseudo-elasticity around other base laws, composites with a history member, three members
+        for name, base in (("OgdenRoxburgh(NeoHooke(mu))", fem.NeoHooke(mu=1.0)), ("OgdenRoxburgh(NeoHookeCompressible)", fem.NeoHookeCompressible(mu=1.0, lmbda=2.0))):
+            um = fem.OgdenRoxburgh(base, r=3.0, m=1.0, beta=0.2)
+            W = np.asarray(base.function([F, None])[0], float)
+            for tag, fac in (("virgin", 0.0), ("unloading", 2.0 + rep)):
+                MM.check_derivatives(run, name, um, F, (fac * W).reshape(1, *batch), unit=name + "[" + tag + "]", config="%s %s" % (name, tag))
+        ve = fem.Hyperelastic(fem.finite_strain_viscoelastic, mu=1.0, eta=float(rng.uniform(0.5, 2)), dtime=0.5, nstatevars=6)
+        for name, um in (("Composite(viscoelastic&Volumetric)", ve & fem.Volumetric(bulk=3.0)), ("Composite(Volumetric&viscoelastic)", fem.Volumetric(bulk=3.0) & ve)):
+            sv = np.zeros((6,) + batch)
+            sv[[0, 3, 5]] = 1.0
+            sv = np.asarray(um.gradient([batch_F(rng, batch, lo=0.85, hi=1.25), sv])[-1], float)
+            MM.check_derivatives(run, name, um, F, sv, config=name)
+        c3 = fem.NeoHooke(mu=1.0) & fem.Volumetric(bulk=2.0) & fem.NeoHookeCompressible(mu=0.3)
+        MM.check_derivatives(run, "Composite(3 members)", c3, F, None, config="composite3")
+        # ---- state-variable AD models with two non-trivial trailing axes
+        for name in ("tt.finite_strain_viscoelastic", "tt.ogden_roxburgh(neo_hooke)", "jax.lagrange.morph", "tt.saint_venant_kirchhoff[k=1]", "jax.yeoh"):
+            m = [x for x in registry() if x.name == name][0]
+            um, p = m.make(rng)
+            sv = prior_state(m, um, rng, batch)
+            if "ogden_roxburgh" in name:
+                sv = sv * 3.0 + 0.05
+            MM.check_derivatives(run, name, um, F, sv, unit=name + "[batch q>1,c>1]", config="%s %s" % (name, batch))
+        # ---- plasticity: a batch in which only some points yield
+        um = fem.LinearElasticPlasticIsotropicHardening(E=100.0, nu=0.3, sy=1.0, K=float(rng.uniform(5, 30)))
+        nsv = um.x[-1].shape[0]
+        big = (3, 4)
+        sv = np.zeros((nsv,) + big)
+        dirs = rng.standard_normal((3, 3) + big)
+        amp = np.where(rng.uniform(size=big) < 0.5, 0.002, 0.03)  # well inside / well outside the yield surface (sy/E = 0.01)
+        Fp = np.eye(3).reshape(3, 3, 1, 1) + amp * dirs
+        s_trial = np.asarray(fem.LinearElastic(E=100.0, nu=0.3).gradient([Fp, None])[0], float)
+        dev = s_trial - np.trace(s_trial) / 3 * np.eye(3).reshape(3, 3, 1, 1)
+        f_trial = np.sqrt(np.einsum("ij...,ij...->...", dev, dev)) - np.sqrt(2 / 3) * 1.0
+        if np.any(np.abs(f_trial) < 0.05) or np.all(f_trial > 0) or np.all(f_trial < 0):
+            run.skip(mon, "partly yielding batch not clearly split")
+        else:
+            MM.check_derivatives(run, "Plasticity[partly-yielding]", um, Fp, sv, config="plasticity partly yielding")
+    return fn
+
+
 SMALL = ["LinearElastic", "LinearElasticTensorNotation", "LinearElasticPlaneStrain", "LinearElasticPlaneStress", "LinearElasticOrthotropic",
          "Laplace", "MaterialStrain(linear_elastic)", "Plasticity[elastic-step]", "Plasticity[plastic-step]"]
 MIXED = ["ThreeFieldVariation(NeoHooke)", "ThreeFieldVariation(NeoHookeCompressible)", "ThreeFieldVariation(tt.yeoh)",
-         "NearlyIncompressible(NeoHooke)", "NearlyIncompressible(NeoHooke,U=K/2 ln^2 J)", "NearlyIncompressible(tt.mooney_rivlin)"]
+         "NearlyIncompressible(NeoHooke)", "NearlyIncompressible(NeoHooke,U=K/2 ln^2 J)", "NearlyIncompressible(tt.mooney_rivlin)",
+         "ThreeFieldVariation(NeoHooke)[parallel,(1,q,c)]", "NearlyIncompressible(NeoHooke)[parallel,(1,q,c)]",
+         "ThreeFieldVariation(OgdenRoxburgh)[statevars]", "NearlyIncompressible(viscoelastic)[statevars]"]
 
 NAMES = ['NeoHooke(mu,bulk)', 'NeoHooke(mu)', 'Volumetric(bulk)', 'NeoHookeCompressible(mu,lmbda)', 'NeoHookeCompressible(mu)',
          'LinearElasticLargeStrain(E,nu)', 'OgdenRoxburgh(NeoHooke)', 'Composite(NeoHooke&Volumetric)', 'tt.neo_hooke', 'tt.mooney_rivlin',
@@ -235,6 +377,8 @@ def cases(tier, seed):
     for which in MIXED:
         for rep in range(reps):
             out.append(("mixed:%s:%d" % (which, rep), case_mixed(which, rep)))
+    for rep in range(2 if tier == "quick" else 6):
+        out.append(("extra:%d" % rep, case_extra(rep)))
     for which in SMALL:
         for rep in range(reps):
             out.append(("small:%s:%d" % (which, rep), case_small_strain(which, rep)))
@@ -254,6 +398,11 @@ def _required():
     req += [w + ":hessian" for w in SMALL] + ["Laplace:gradient"]
     for n in ("NeoHooke(mu,bulk)", "NeoHooke(mu)", "Volumetric(bulk)", "NeoHookeCompressible(mu,lmbda)", "NeoHookeCompressible(mu)"):
         req += ["out:%s:gradient" % n, "out:%s:hessian" % n]
+    req += ["VolumeChange:hessian", "VolumeChange[parallel]:hessian", "AreaChange:gradient", "AreaChange[N]:gradient", "AreaChange[N][parallel]:gradient",
+            "LineChange:gradient", "NeoHooke(mu,bulk)[parallel]:hessian", "tt.yeoh[parallel]:hessian", "NeoHooke(mu,bulk)[2x2]:hessian",
+            "NeoHookeCompressible(mu,lmbda)[F=I]:hessian", "Laplace[1x3]:hessian", "OgdenRoxburgh(NeoHooke(mu))[unloading]:hessian",
+            "Composite(viscoelastic&Volumetric):hessian", "Composite(3 members):hessian", "tt.finite_strain_viscoelastic[batch q>1,c>1]:hessian",
+            "jax.lagrange.morph[batch q>1,c>1]:hessian", "Plasticity[partly-yielding]:hessian"]
     return req
 
 
@@ -261,7 +410,8 @@ SPEC = {
     "required_units": _required(),
     "rule": ("48 finite-strain registry entries (hand-coded, 20 tensortrax and 11 jax hyperelastic models incl. parameter variants, "
              "state-variable models with states reached through a random prior history, total/updated Lagrange wrappers, composite), "
-             "5 mixed (F,p,J) wrappers with all six blocks, 9 small-strain / scalar laws incl. plasticity on both sides of the yield "
+             "kinematic maps (volume, area, line; serial and threaded), threaded model variants, 2x2 and F = I arguments, non-square Laplace, further "
+             "compositions, partly yielding plasticity batches; 5 mixed (F,p,J) wrappers with all six blocks, 9 small-strain / scalar laws incl. plasticity on both sides of the yield "
              "surface; random admissible parameters, deformation gradients R Q diag(lambda) Q^T with lambda in [0.75,1.4] and distinct "
              "stretches, trailing shapes (1,n),(n,1),(1,1),(2,3); out=None/fresh/garbage/reused buffers for the hand-coded models; a "
              "configuration is distinct by (model, clause, batch shape, branch)"),
